@@ -1,10 +1,11 @@
 #!/bin/bash
-# run the thorough tier of the given checks one after the other; summary to /tmp/thorough-summary.txt
+# usage: run_thorough.sh <lane> ids...  — thorough tier of the given checks one after the other; summary to /tmp/thorough-<lane>.txt
 cd /verif
-: > /tmp/thorough-summary.txt
+LANE=$1; shift
+: > /tmp/thorough-$LANE.txt
 for p in "$@"; do
   s=$(date +%s)
   VERIF_SEED=1 ./check.py $p --tier thorough > /tmp/thorough-$p.log 2>&1; rc=$?
-  echo "$p rc=$rc viol=$(grep -c '^VIOLATION' /tmp/thorough-$p.log) secs=$(( $(date +%s) - s )) $(tail -1 /tmp/thorough-$p.log | cut -c1-100)" >> /tmp/thorough-summary.txt
+  echo "$p rc=$rc viol=$(grep -c '^VIOLATION' /tmp/thorough-$p.log) secs=$(( $(date +%s) - s )) $(tail -1 /tmp/thorough-$p.log | cut -c1-100)" >> /tmp/thorough-$LANE.txt
 done
-echo DONE >> /tmp/thorough-summary.txt
+echo DONE >> /tmp/thorough-$LANE.txt
